@@ -13,6 +13,7 @@ tables that instantiate it are in HeaderTables.lean.  Every theorem that does no
 tables therefore holds for *any* pixel-info detection.
 -/
 import DdsModel.Layout
+import DdsModel.SrcTables
 namespace Dds
 
 /-! ### constants (src/header.rs bitflags, FourCC) -/
@@ -220,12 +221,10 @@ def ResDim.ofU32 (n : Nat) : Option ResDim :=
   if n = 2 then some .tex1D else if n = 3 then some .tex2D else if n = 4 then some .tex3D
   else none
 
-/-- `DxgiFormat::try_from(u32)`: the accepted codes (162 of them) -/
+/-- `DxgiFormat::try_from(u32)`: the accepted codes. The runs of accepted codes are TRANSLATED from the match arms of
+the source on every run (`SrcTables.dxgiValidRanges`, tools/extract_tables.py), not pinned. -/
 def inR (v lo hi : Nat) : Bool := lo ≤ v && v ≤ hi
-def dxgiValid (v : Nat) : Bool :=
-  inR v 0 115 || inR v 130 135 || inR v 137 139 || inR v 141 143 || inR v 145 147 ||
-  inR v 149 151 || inR v 153 155 || inR v 157 159 || inR v 161 163 || inR v 165 167 ||
-  inR v 169 171 || inR v 173 175 || inR v 177 179 || inR v 181 183 || inR v 185 187 || v == 191
+def dxgiValid (v : Nat) : Bool := SrcTables.dxgiValidRanges.any fun r => inR v r.1 r.2
 
 structure MaskPixelFormat where
   flags : Nat
